@@ -321,8 +321,23 @@ def check_c20(tier, seed):
     nprog, nseeds = (60, 6) if tier == "quick" else (600, 20)
     rng = Rng(seed ^ 0xC20B)
     jobs = []
-    for pi in range(nprog):
-        prog = sysa.gen_program(seed, pi)
+    # calibration: programs on which the analyser itself is too slow under simulation are dropped (and counted)
+    cands = [sysa.gen_program(seed, pi) for pi in range(nprog)]
+    cal = []
+    for prog in cands:
+        for kind in ("taint", "backtrace"):
+            cj = sysa.make_job(len(cal), kind, prog, {"log-level": 1, "summarize-on-demand": kind == "taint"}, sysa.base_params())
+            cj["_prog"] = prog["name"]
+            cal.append(cj)
+    cal_res = run_jobs(binary, cal, timeout=REF_TIMEOUT)
+    slow = set(cj["_prog"] for cj, cr in zip(cal, cal_res) if cr is None or cr.get("timeout"))
+    wall = collections.defaultdict(int)
+    for cj, cr in zip(cal, cal_res):
+        wall[cj["_prog"]] = max(wall[cj["_prog"]], (cr or {}).get("wall_ms", 0))
+    dropped_slow = len(slow)
+    for prog in cands:
+        if prog["name"] in slow:
+            continue
         for si in range(nseeds):
             opts = {"log-level": rng.pick([1, 1, 1, 3, 5])}
             combo = rng.below(16) if si else 15
@@ -335,6 +350,7 @@ def check_c20(tier, seed):
             p = sysa.swarm_params(rng, writer_site, allow_writer_starve=opts.get("report-summaries", False))
             j = sysa.make_job(len(jobs), kind, prog, opts, p)
             j["_prog"] = prog["name"]
+            j["_timeout"] = max(120, int(60 * wall[prog["name"]] / 1000.0))
             jobs.append(j)
     if tier == "thorough":
         for name, _ in sysa.CORPUS[:6]:
@@ -393,6 +409,7 @@ def check_c20(tier, seed):
             report_violation(rep, binary, "C20", j, sig, pred, "analyser-%d" % j["id"])
     cov = st.coverage(RULE_A, {"mapparallel_runs": mappar_runs, "analyser_runs": st.runs - mappar_runs,
                                "report_completeness_checked": complete_checked,
+                               "programs_dropped_because_the_analyser_is_too_slow_on_them": dropped_slow,
                                "runs_per_hour": int(st.runs / max(1e-9, time.time() - t0) * 3600),
                                "seeds": [seed]})
     write_evidence("C20", tier, seed, cov, time.time() - t0, len(rep.violations),
@@ -458,12 +475,17 @@ KNOWN_C06 = ("use-escape-analysis: escape set / 'missing escape ... in context' 
              "(flows equal; at least one run returns that error)")
 
 
+REF_TIMEOUT = 45
+
+
 def explore(binary, bdir, tier, seed, progs, variants, nseeds, st, rep, prop, on_result, timeout=240,
-            extra_opts=None, max_steps=None):
+            extra_opts=None, max_steps=None, ref_timeout=REF_TIMEOUT):
     """Runs, for every (program, variant): one reference run (zero tape, 1 worker, canonical map order) and nseeds
-    swarm runs. Calls on_result(job, result, ref_result) for every swarm run that produced a verdict."""
+    swarm runs. Calls on_result(job, result, ref_result) for every swarm run that produced a verdict.
+    A (program, variant) whose reference run does not finish within ref_timeout is dropped (the analyser is
+    exponential on some program shapes; how long it takes is not what these checks decide) and counted."""
     rng = Rng(seed ^ 0xA11CE)
-    jobs, meta = [], []
+    refs = []
     for prog in progs:
         for vname, kind, opts in variants:
             o = {"log-level": 1}
@@ -473,36 +495,46 @@ def explore(binary, bdir, tier, seed, progs, variants, nseeds, st, rep, prop, on
             rp = sysa.base_params()
             if max_steps:
                 rp["max_steps"] = max_steps
-            rj = sysa.make_job(len(jobs), kind, prog, o, rp)
-            rj["_prog"], rj["_variant"], rj["_ref"] = prog["name"], vname, True
-            ref_index = len(jobs)
-            jobs.append(rj)
-            meta.append(None)
-            for si in range(nseeds):
-                p = sysa.swarm_params(rng)
-                if max_steps:
-                    p["max_steps"] = max_steps
-                j = sysa.make_job(len(jobs), kind, prog, o, p)
-                j["_prog"], j["_variant"] = prog["name"], vname
-                jobs.append(j)
-                meta.append(ref_index)
-    res = run_jobs(binary, jobs, timeout=timeout, progress=2000)
+            rj = sysa.make_job(len(refs), kind, prog, o, rp)
+            rj["_prog"], rj["_variant"], rj["_ref"], rj["_progobj"], rj["_kind"], rj["_opts"] = prog["name"], vname, True, prog, kind, o
+            refs.append(rj)
+    ref_res = run_jobs(binary, refs, timeout=ref_timeout, progress=2000)
     dropped = collections.Counter()
-    for j, r, ri in zip(jobs, res, meta):
+    jobs, meta = [], []
+    for rj, rr in zip(refs, ref_res):
+        if rr is not None and rr.get("timeout"):
+            dropped["reference run slower than %ds: (program, variant) dropped" % ref_timeout] += 1
+            continue
+        hard = sysa.classify_hard(rr)
+        if hard and not (rr or {}).get("died"):
+            st.hard[hard.split(":")[0]] += 1
+            rep.inconclusive.append("reference run (%s/%s): %s" % (rj["_prog"], rj["_variant"], hard))
+            continue
+        st.add(rj, rr)
+        if (rr or {}).get("died") or ((rr or {}).get("sim") or {}).get("aborted"):
+            dropped["reference run without verdict"] += 1
+            continue
+        tmo = max(90, int(40 * (rr.get("wall_ms", 1000) / 1000.0)))
+        for si in range(nseeds):
+            p = sysa.swarm_params(rng)
+            if max_steps:
+                p["max_steps"] = max_steps
+            j = sysa.make_job(len(jobs), rj["_kind"], rj["_progobj"], rj["_opts"], p)
+            j["_prog"], j["_variant"], j["_timeout"] = rj["_prog"], rj["_variant"], tmo
+            jobs.append(j)
+            meta.append(rr)
+    res = run_jobs(binary, jobs, timeout=timeout, progress=2000)
+    for j, r, ref in zip(jobs, res, meta):
         hard = sysa.classify_hard(r)
         if hard and not (r or {}).get("died"):
             st.hard[hard.split(":")[0]] += 1
             rep.inconclusive.append("run %d (%s/%s): %s" % (j["id"], j["_prog"], j["_variant"], hard))
             continue
         st.add(j, r)
-        if ri is None:
-            continue
-        ref = res[ri]
-        if sysa.classify_hard(ref) or (ref or {}).get("died") or ((ref or {}).get("sim") or {}).get("aborted"):
-            dropped["reference run without verdict"] += 1
-            continue
         on_result(j, r, ref)
-    return jobs, res, dropped
+    for rj in refs:
+        rj.pop("_progobj", None)
+    return refs + jobs, list(ref_res) + list(res), dropped
 
 
 def check_c06(tier, seed):
@@ -635,27 +667,39 @@ def check_c05(tier, seed):
         {"pkg-filter": "main", "summarize-on-demand": True}, {"summarize-on-demand": True, "report-summaries": True},
     ]
     alarms = [{"max-alarms": 1}, {"max-alarms": 2}, {"max-alarms": 1, "summarize-on-demand": True}]
-    jobs, meta = [], []
     counts = collections.Counter()
+    refs = []
     for prog in progs:
-        for kind in ("taint",):
-            o = {"log-level": 1}
-            rj = sysa.make_job(len(jobs), kind, prog, o, sysa.base_params())
-            rj["_prog"], rj["_variant"], rj["_ref"] = prog["name"], "base", True
-            ri = len(jobs)
-            jobs.append(rj)
-            meta.append(None)
-            for group, optsets in (("sim_decided", sim_decided), ("ride_along", ride_along), ("max_alarms", alarms)):
-                for os_ in optsets:
-                    for si in range(nseeds if group != "ride_along" else max(1, nseeds // 2)):
-                        o2 = {"log-level": 1}
-                        o2.update(os_)
-                        p = sysa.swarm_params(rng)
-                        j = sysa.make_job(len(jobs), kind, prog, o2, p)
-                        j["_prog"], j["_variant"], j["_group"] = prog["name"], json.dumps(os_, sort_keys=True), group
-                        jobs.append(j)
-                        meta.append(ri)
-    res = run_jobs(binary, jobs, timeout=240, progress=2000)
+        rj = sysa.make_job(len(refs), "taint", prog, {"log-level": 1}, sysa.base_params())
+        rj["_prog"], rj["_variant"], rj["_ref"] = prog["name"], "base", True
+        refs.append(rj)
+    ref_res = run_jobs(binary, refs, timeout=REF_TIMEOUT, progress=2000)
+    jobs, meta = [], []
+    res0 = []
+    for prog, rj, rr in zip(progs, refs, ref_res):
+        if rr is not None and rr.get("timeout"):
+            counts["reference run slower than %ds: program dropped" % REF_TIMEOUT] += 1
+            continue
+        ri = len(jobs)
+        jobs.append(rj)
+        meta.append(None)
+        res0.append(rr)
+        tmo = max(90, int(40 * ((rr or {}).get("wall_ms", 1000) / 1000.0)))
+        for group, optsets in (("sim_decided", sim_decided), ("ride_along", ride_along), ("max_alarms", alarms)):
+            for os_ in optsets:
+                for si in range(nseeds if group != "ride_along" else max(1, nseeds // 2)):
+                    o2 = {"log-level": 1}
+                    o2.update(os_)
+                    p = sysa.swarm_params(rng)
+                    j = sysa.make_job(len(jobs), "taint", prog, o2, p)
+                    j["_prog"], j["_variant"], j["_group"], j["_timeout"] = prog["name"], json.dumps(os_, sort_keys=True), group, tmo
+                    jobs.append(j)
+                    meta.append(ri)
+                    res0.append(None)
+    todo = [j for j, r in zip(jobs, res0) if r is None]
+    done = run_jobs(binary, todo, timeout=240, progress=2000)
+    it = iter(done)
+    res = [r if r is not None else next(it) for r in res0]
     observations = collections.Counter()
     for j, r, ri in zip(jobs, res, meta):
         hard = sysa.classify_hard(r)
